@@ -2,7 +2,7 @@
    entries, include order. *)
 From Coq Require Import List NArith Bool Lia Permutation.
 From DesVerif Require Import Props.Spec Props.Model Props.Bytes Props.Den Props.Loops Props.Capture Props.Complete
-     Props.Route Props.Comp.
+     Props.Route Props.Comp Props.Generic.
 Import ListNotations.
 Open Scope N_scope.
 
@@ -112,6 +112,39 @@ Proof.
     apply (Permutation_in _ (Permutation_sym P)). apply in_map_iff. exists (k, v). split; [reflexivity|exact Hin].
 Qed.
 
+(* ---- from name/value lists to the property store of the model ---- *)
+Definition store_of (ps : props) : store := map (fun e => (fst e, EYaml (snd e))) ps.
+Definition hasS (name : str) (st : store) : Prop := exists e, In (name, e) st.
+
+Lemma s_get_store_of k ps : s_get k (store_of ps) = None <-> p_has k ps = false.
+Proof.
+  induction ps as [|[k' v] ps IH]; cbn [store_of map s_get p_has existsb fst snd].
+  - split; reflexivity.
+  - destruct (str_eqb k k'); cbn [orb]; [split; discriminate|exact IH].
+Qed.
+
+Lemma s_set_store_of k v ps : s_set k v (store_of ps) = store_of (p_set k v ps).
+Proof.
+  unfold s_set, p_set. destruct (p_has k ps) eqn:E.
+  - destruct (s_get k (store_of ps)) eqn:G; [reflexivity|]. apply s_get_store_of in G. congruence.
+  - apply s_get_store_of in E. rewrite E. unfold store_of. rewrite map_app. reflexivity.
+Qed.
+
+Lemma capture_store c p : capture_for_into c p = store_of (update_from (length p) [] c p).
+Proof.
+  unfold capture_for_into, capture_for. symmetry.
+  apply (upd_sim props store p_set s_set (fun a b => store_of a = b)).
+  - intros k v a b <-. symmetry. apply s_set_store_of.
+  - reflexivity.
+Qed.
+
+Lemma in_store_of name e ps : In (name, e) (store_of ps) <-> exists val, e = EYaml val /\ In (name, val) ps.
+Proof.
+  unfold store_of. rewrite in_map_iff. split.
+  - intros [[k v] [E H]]. cbn [fst snd] in E. injection E as <- <-. exists v. split; [reflexivity|exact H].
+  - intros [val [-> H]]. exists (name, val). split; [reflexivity|exact H].
+Qed.
+
 Section Guarded.
   Variable cfg : list (str * N).
   Variable p : list str.
@@ -119,33 +152,36 @@ Section Guarded.
   Hypothesis Hk : known_classb cfg = false.
   Hypothesis Hp : wf_pathb p = true.
 
-  Theorem capture_sound name val :
-    In (name, val) (capture_for_into (cfg_new cfg) p) -> exists v, val = Scalar v /\ receives cfg p name v.
+  Theorem capture_sound name e :
+    In (name, e) (capture_for_into (cfg_new cfg) p) -> exists v, e = EYaml (Scalar v) /\ receives cfg p name v.
   Proof.
     destruct (cfg_new_ok cfg (proj1 (wf_cfgb_ok cfg) Hwf) (proj1 (known_classb_false cfg) Hk)) as [m [E [W P]]].
-    unfold capture_for_into, capture_for. rewrite E. intros H.
+    rewrite capture_store, E. intros H. apply in_store_of in H. destruct H as [val [-> H]].
     apply upd_sound in H; [|exact W|apply wf_pathb_ok; exact Hp]. destruct H as [[]|H].
-    apply (J_receives cfg m p (name, val) P) in H. exact H.
+    apply (J_receives cfg m p (name, val) P) in H. cbn [fst snd] in H. destruct H as [v [-> R]].
+    exists v. split; [reflexivity|exact R].
   Qed.
 
   Theorem capture_complete name v :
     receives cfg p name v ->
-    exists v', In (name, Scalar v') (capture_for_into (cfg_new cfg) p) /\ receives cfg p name v'.
+    exists v', In (name, EYaml (Scalar v')) (capture_for_into (cfg_new cfg) p) /\ receives cfg p name v'.
   Proof.
     intros R. pose proof capture_sound as S.
     destruct (cfg_new_ok cfg (proj1 (wf_cfgb_ok cfg) Hwf) (proj1 (known_classb_false cfg) Hk)) as [m [E [W P]]].
-    unfold capture_for_into, capture_for in *. rewrite E in *.
+    rewrite capture_store, E in *.
     assert (J (denm m) p (name, Scalar v)) as HJ.
     { apply (J_receives cfg m p (name, Scalar v) P). exists v. split; [reflexivity|exact R]. }
     destruct (upd_complete p m [] name (Scalar v) W (proj1 (wf_pathb_ok p) Hp) HJ) as [val Hin].
-    destruct (S name val Hin) as [v' [-> R']]. exists v'. split; assumption.
+    assert (In (name, EYaml val) (store_of (update_from (length p) [] (Mapping m) p))) as Hs
+      by (apply in_store_of; exists val; split; [reflexivity|exact Hin]).
+    destruct (S name (EYaml val) Hs) as [v' [Ev R']]. injection Ev as ->. exists v'. split; assumption.
   Qed.
 
   (* no entry addresses the module: it receives nothing *)
   Theorem nothing_addressed : (forall k v r, In (k, v) cfg -> ~ addresses k p r) -> capture_for_into (cfg_new cfg) p = [].
   Proof.
-    intros H. destruct (capture_for_into (cfg_new cfg) p) as [|[name val] l] eqn:E; [reflexivity|].
-    exfalso. destruct (capture_sound name val) as [v [_ [k [r [Hin [A _]]]]]]; [rewrite E; left; reflexivity|].
+    intros H. destruct (capture_for_into (cfg_new cfg) p) as [|[name e] l] eqn:E; [reflexivity|].
+    exfalso. destruct (capture_sound name e) as [v [_ [k [r [Hin [A _]]]]]]; [rewrite E; left; reflexivity|].
     exact (H k v r Hin A).
   Qed.
 End Guarded.
@@ -170,13 +206,30 @@ Theorem no_foreign_entries cfg1 cfg2 p :
   wf_cfgb cfg1 = true -> known_classb cfg1 = false -> wf_cfgb cfg2 = true -> known_classb cfg2 = false ->
   wf_pathb p = true ->
   (forall name v, receives cfg1 p name v <-> receives cfg2 p name v) ->
-  forall name, hasP name (capture_for_into (cfg_new cfg1) p) <-> hasP name (capture_for_into (cfg_new cfg2) p).
+  forall name, hasS name (capture_for_into (cfg_new cfg1) p) <-> hasS name (capture_for_into (cfg_new cfg2) p).
 Proof.
-  intros W1 K1 W2 K2 Wp H name. split; intros [val Hin].
-  - destruct (capture_sound cfg1 p W1 K1 Wp name val Hin) as [v [-> R]]. apply H in R.
-    destruct (capture_complete cfg2 p W2 K2 Wp name v R) as [v' [Hin' _]]. exists (Scalar v'). exact Hin'.
-  - destruct (capture_sound cfg2 p W2 K2 Wp name val Hin) as [v [-> R]]. apply H in R.
-    destruct (capture_complete cfg1 p W1 K1 Wp name v R) as [v' [Hin' _]]. exists (Scalar v'). exact Hin'.
+  intros W1 K1 W2 K2 Wp H name. split; intros [e Hin].
+  - destruct (capture_sound cfg1 p W1 K1 Wp name e Hin) as [v [-> R]]. apply H in R.
+    destruct (capture_complete cfg2 p W2 K2 Wp name v R) as [v' [Hin' _]]. exists (EYaml (Scalar v')). exact Hin'.
+  - destruct (capture_sound cfg2 p W2 K2 Wp name e Hin) as [v [-> R]]. apply H in R.
+    destruct (capture_complete cfg1 p W1 K1 Wp name v R) as [v' [Hin' _]]. exists (EYaml (Scalar v')). exact Hin'.
+Qed.
+
+(* ---- a later include never touches a property that already has a slot ---- *)
+Lemma s_get_app_some k e st t : s_get k st = Some e -> s_get k (st ++ t) = Some e.
+Proof.
+  induction st as [|[k' e'] st IH]; cbn [s_get app]; [discriminate|]. destruct (str_eqb k k'); [intros H; exact H|exact IH].
+Qed.
+
+Lemma s_set_keeps name e k v st : s_get name st = Some e -> s_get name (s_set k v st) = Some e.
+Proof. intros H. unfold s_set. destruct (s_get k st); [exact H|apply s_get_app_some; exact H]. Qed.
+
+(* whatever its state - configured, typed, or the empty slot left by a lookup *)
+Theorem include_keeps_slot (c : cfg) (path : list str) (st : store) name e :
+  s_get name st = Some e -> s_get name (capture_for c path st) = Some e.
+Proof.
+  intros H. unfold capture_for. apply (upd_inv store s_set (fun s => s_get name s = Some e)); [|exact H].
+  intros k v a Ha. apply s_set_keeps. exact Ha.
 Qed.
 
 (* ---- include order ---- *)
